@@ -39,6 +39,7 @@ structure ObsCand where
   deleting : Bool := false    -- the NodeClaim is being deleted
   mark : Bool := false        -- the node does not count as schedulable capacity (marked for deletion or deleting)
   owner : Option Nat := none  -- the action the node is the subject of
+  gone : Bool := false        -- the node and its NodeClaim no longer exist (somebody else removed them / termination finished)
 deriving DecidableEq, Repr
 
 structure Obs where
@@ -100,14 +101,16 @@ def failedDeletesNothing (t : Track) (o : Obs) : Bool :=
   | .failed, some K => !(deletedAfter t o).contains K
   | _, _ => true
 
-/-- **rollback, in-memory part**: when an action is given up, its candidates leave the queue at once and count as
-    schedulable capacity again (unless their NodeClaim is going away anyway) -/
+/-- **rollback, in-memory part**: when an action is given up, EACH of its candidates leaves the queue at once and
+    counts as schedulable capacity again (unless its NodeClaim is going away anyway or the node no longer exists) —
+    whatever has happened to the other candidates of the action meanwhile -/
 def failedReleases (t : Track) (o : Obs) : Bool :=
   match o.verdict, actingFor t o.kind with
   | .failed, some K =>
     (idxs o.cands.length).all (fun c =>
       (candOf t.prev c).owner != some K ||
-        ((candOf o.cands c).owner == none && (!(candOf o.cands c).mark || (candOf o.cands c).deleting)))
+        ((candOf o.cands c).owner == none &&
+          (!(candOf o.cands c).mark || (candOf o.cands c).deleting || (candOf o.cands c).gone)))
   | _, _ => true
 
 /-- **a rejected start leaves nothing behind in memory**: candidates are not queued and not marked by it -/
@@ -116,7 +119,7 @@ def rejectedStartClean (sc : Scenario) (t : Track) (o : Obs) : Bool :=
   | .start k, .startRejected =>
     (sc.candsOf k).all (fun c =>
       (candOf o.cands c).owner == (candOf t.prev c).owner
-        && (!(candOf o.cands c).mark || (candOf t.prev c).mark || (candOf o.cands c).deleting))
+        && (!(candOf o.cands c).mark || (candOf t.prev c).mark || (candOf o.cands c).deleting || (candOf o.cands c).gone))
   | _, _ => true
 
 /-- **return to service**: after a cleanup pass that ran undisturbed, every node that is not the subject of an action
@@ -126,7 +129,7 @@ def returnedToService (o : Obs) : Bool :=
   match o.kind, o.verdict with
   | .cleanup, .cleanupOk =>
     o.faults != 0 ||
-      o.cands.all (fun c => c.owner.isSome || c.mark || c.deleting || (!c.taint && !c.cond))
+      o.cands.all (fun c => c.owner.isSome || c.mark || c.deleting || c.gone || (!c.taint && !c.cond))
   | _, _ => true
 
 /-- **one action per node**: a node that is the subject of an action stays with it until that action's queue pass
@@ -145,13 +148,15 @@ def ownershipOk (sc : Scenario) (t : Track) (o : Obs) : Bool :=
               (actingFor t o.kind == some K && (o.verdict == .succeeded || o.verdict == .failed)))
         | none =>
           match after, o.kind with
-          | some k, .start k' => k == k' && o.verdict == .startOk && (sc.candsOf k).contains c
+          | some k, .start k' =>
+            -- … and only a node that exists can become the subject of an action
+            k == k' && o.verdict == .startOk && (sc.candsOf k).contains c && !(candOf t.prev c).gone
           | _, _ => false))
 
 /-- a restart forgets every action and every in-memory mark -/
 def restartClean (o : Obs) : Bool :=
   match o.kind with
-  | .restart => o.cands.all (fun c => c.owner == none && (!c.mark || c.deleting))
+  | .restart => o.cands.all (fun c => c.owner == none && (!c.mark || c.deleting || c.gone))
   | _ => true
 
 /-- first violated clause of a step, if any -/
